@@ -35,3 +35,18 @@ func C14_PoolIndependenceShaped() {
 		verif.Assert(*c1 == *c2, "same object whatever the pool held")
 	}
 }
+
+// C14_PoolIndependenceStruct: the same on the element-structured inputs (SHAPE).
+func C14_PoolIndependenceStruct() {
+	s := structInput()
+	prime := func(p string) { ParseVector(p) }
+	verif.PrimePool(1, prime)
+	c1, e1 := ParseVector(s)
+	verif.PrimePool(2, prime)
+	c2, e2 := ParseVector(s)
+	verif.Assert(e1 == e2, "same error whatever the pool held")
+	verif.Assert((c1 == nil) == (c2 == nil), "same nil-ness whatever the pool held")
+	if c1 != nil && c2 != nil {
+		verif.Assert(*c1 == *c2, "same object whatever the pool held")
+	}
+}
